@@ -43,6 +43,10 @@ let () =
   register "c13.of_int32" (function
     | [z] -> hex_of_n (Model.int32_to_crc (z_of_hex z))
     | _ -> failwith "c13.of_int32 args");
+  (* difference d -> the change of the last four body bytes with checksum difference d *)
+  register "c13.suffix_fault" (function
+    | [d] -> tok_of_bytes (Model.suffix_fault (n_of_hex d))
+    | _ -> failwith "c13.suffix_fault args");
   register "c13.page_crc" (function
     | [r; d; p] -> hex_of_n (Model.page_crc (bytes_of_tok r) (bytes_of_tok d) (bytes_of_tok p))
     | _ -> failwith "c13.page_crc args");
